@@ -2,8 +2,10 @@ package main
 
 // The property's own predicate: a plain Go map, and the durability rule
 //   "after a reopen every key holds its last synced value or a later written one, never a value never written".
-// Sync points (everything written so far is durable) are: a completed Close; for a non-volatile store any moment
-// at which the store itself reports no pending records (#PendingRecords = 0 after a call returned).
+// Sync points (everything written so far is durable) are: a completed Close; for a non-volatile store a completed
+// Sync() and a completed Defrag(true) — whatever the store reports about itself — and, in addition, any moment at
+// which the store itself reports no pending records (#PendingRecords = 0 after a call returned: an automatic sync
+// has happened, and the store is held to it).
 
 import (
 	"fmt"
@@ -59,8 +61,8 @@ func (f *refT) before(t []string) {
 		f.m[k] = v
 		f.nb[k] = 0
 		if t[0] == "putext" {
-			fl, _ := strconv.Atoi(t[3])
-			f.nb[k] = fl & 1
+			fl, _ := strconv.ParseUint(t[3], 10, 32)
+			f.nb[k] = int(fl & 1)
 		}
 		f.hist[k] = append(f.hist[k], sig(v))
 		f.byts[sig(v)] = v
@@ -71,7 +73,7 @@ func (f *refT) before(t []string) {
 		f.hist[k] = append(f.hist[k], "")
 	case "flags":
 		k := pkey(t[1])
-		fl, _ := strconv.Atoi(t[2])
+		fl, _ := strconv.ParseUint(t[2], 10, 32)
 		if _, ok := f.m[k]; ok {
 			if fl&1 != 0 {
 				f.nb[k] = 1
@@ -208,6 +210,8 @@ func (f *refT) after(t []string, state string) {
 	case t[0] == "close":
 		f.open = false
 		f.syncPoint()
+	case f.open && !f.vol && (t[0] == "sync" || (t[0] == "defrag" && len(t) > 1 && t[1] == "1")):
+		f.syncPoint() // hard sync points of the property, independent of the implementation's own bookkeeping
 	case f.open && !f.vol && strings.Contains(state, " pe=0 "):
 		f.syncPoint()
 	}
